@@ -2023,7 +2023,12 @@ class WSGIRequest:
                     return self._stream.read(size)
 
         self.content = StreamWrapper(self._environ["wsgi.input"])
-        self.match_info = {"path_info": environ["PATH_INFO"]}
+        # PEP 3333: PATH_INFO is latin-1 decoded; the real path is UTF-8
+        self.match_info = {
+            "path_info": environ["PATH_INFO"]
+            .encode("iso-8859-1")
+            .decode(DEFAULT_ENCODING)
+        }
 
     @property
     def can_read_body(self):
